@@ -4,6 +4,7 @@
 package sqlgen
 
 import (
+	"github.com/samsarahq/thunder/batch"
 	"context"
 	"strconv"
 	"strings"
@@ -197,6 +198,50 @@ func c10Batch(nrows, k, shapes int) {
 		nondet.AssertClass(len(got) == len(own), "same-rows", class)
 	}
 	nondet.Cover("batched")
+}
+
+// VerifC10Options: a query issued on a batching context with and without
+// options that change the statement (LIMIT): it gets exactly the rows the same
+// query gets without batching (options must keep a query out of the batch or
+// be honoured by it).
+func VerifC10Options() {
+	zReset()
+	schema := zSchema()
+	db := zNewDB(schema)
+	zDrv.table = c10Table(1 + nondet.Choice("nrows", 3))
+	c := c10MkFilter("f", 3)
+	var opts *SelectOptions
+	switch nondet.Choice("options", 3) {
+	case 1:
+		opts = &SelectOptions{Limit: 1}
+	case 2:
+		opts = &SelectOptions{AllowNoIndex: true}
+	}
+	var plain, batched []*zUser
+	copyOpts := func() *SelectOptions {
+		if opts == nil {
+			return nil
+		}
+		o := *opts
+		return &o
+	}
+	err := db.Query(context.Background(), &plain, c.f, copyOpts())
+	nondet.Assert(err == nil, "unbatched-ok")
+	err = db.Query(batch.WithBatching(context.Background()), &batched, c.f, copyOpts())
+	nondet.Assert(err == nil, "batch-ok")
+	class := ""
+	if c.intRepr {
+		class = "filter-value-int-repr"
+	}
+	if c.nilVal {
+		class = strings.TrimPrefix(class+"+filter-value-nil", "+")
+	}
+	same := len(plain) == len(batched)
+	for i := 0; same && i < len(plain); i++ {
+		same = plain[i] == batched[i]
+	}
+	nondet.AssertClass(same, "same-rows-with-options", class)
+	nondet.Cover("options")
 }
 
 func VerifC10Batch2() { c10Batch(2, 2, 6) }
